@@ -1,0 +1,31 @@
+//go:build verif
+
+package logout
+
+// Contracts for /verif (contract-based deductive verification of the real
+// code). Comment-only: no code; visible only with the build tag "verif".
+//
+//@ spec wiped(wl) := (before Sess.DelAll(?k) :: k == join(wl, ",") &&
+//@                      after Sess.Del("uid") && after Sess.Del("halfauth") && after Sess.Del("last_action") && after Cook.Del("rm"))
+//@
+//@ func (*Logout).Logout
+//@   property C10 C18
+//@   -- unless a before-logout handler took over (or failed), the response deletes every
+//@   -- non-whitelisted session value, the identity keys, and the remember cookie - before
+//@   -- any after-event or redirect, and never writes a session or cookie value itself
+//@   ensures[C10] wipe: (emits Fire("Before", EventLogout, _, _, _) -> (?h, ?e) :: h == false && e == nil) ==>
+//@       (emits Sess.DelAll(?k) :: k == join(l.Config.Storage.SessionStateWhitelistKeys, ",") &&
+//@          after Sess.Del("uid") && after Sess.Del("halfauth") && after Sess.Del("last_action") && after Cook.Del("rm"))
+//@   ensures[C10] wipe_before_response:
+//@       (each Redirect(_) => before Cook.Del("rm") && before Sess.Del("last_action") && before Sess.Del("halfauth") && before Sess.Del("uid") && before Sess.DelAll(_)) &&
+//@       (each Fire("After", _, _, _, _) => before Cook.Del("rm") && before Sess.Del("last_action") && before Sess.Del("halfauth") && before Sess.Del("uid") && before Sess.DelAll(_))
+//@   ensures[C10] no_put: !emits Sess.Put(_, _) && !emits Cook.Put(_, _)
+//@   ensures[C18] no_panic: !panics
+//@
+//@ func (*Logout).Init
+//@   property C10
+//@   -- logout only reacts to the configured method
+//@   ensures one_method: each Router.Register(?m, ?p, _) => m == l.Config.Modules.LogoutMethod && p == "/logout" && !(before Router.Register(_, _, _))
+//@   ensures registers: result == nil ==> emits Router.Register(_, _, _)
+//@   ensures bad_method_fails: (l.Config.Modules.LogoutMethod != "GET" && l.Config.Modules.LogoutMethod != "POST" && l.Config.Modules.LogoutMethod != "DELETE") ==>
+//@       (result != nil && !emits Router.Register(_, _, _))
